@@ -76,6 +76,9 @@ def corpus_helpers(tier):
     ]
     # names and file names that contain what looks like an escape sequence of some other layer: they are ordinary text
     out.append(([part("a%22b%0A", None, b"v%0D"), part("50%25", "report 50%22 screen%0A%0D.txt", b"x"), part("q&amp;", "a&#10;b.txt", b"y"), part("%41", "%E4%B8%AD.txt", b"z")], b, "utf-8", None, None))
+    # a text field that names a charset of its own in its part header, followed by fields that do not: each later field is read
+    # in the form's charset again
+    out.append(([part("first", None, b"plain ascii", "text/plain; charset=ISO-8859-1"), part("second", None, "Zürich 5 €".encode()), part("u", "ü.txt", "é".encode(), "text/plain; charset=utf-16"), part("third", None, "中".encode())], b, "utf-8", None, None))
     # parts long enough to be delivered in several hundred pieces (more Data events than the default part limit)
     out.append(([part("big", "big.bin", bytes(range(256)) * 2), part("txt", None, ("line of text " * 30).encode())], b, "utf-8", None, None))
     if tier == "thorough":
